@@ -114,6 +114,18 @@ theorem divSum_inv {α : Type} [AddCommMonoid α] (φ : Rat → α) (W : AMat Ra
     divSum φ W (c.map g) u = divSum φ W c u ∧ numMods (c.map g) = numMods c :=
   ⟨modSum_map c hg _, numMods_map c hg⟩
 
+/-- the table printed by the driver for `diversity_coef_sign` is what `divSum` sums: row `u` of `pnmTable W c` lists
+`pnm[u, 1..k]`, and `divSum φ W c u` is the sum of `φ` over that row (so the harness's entropy of the printed row is `divSum` with
+`φ p = -p log p`) -/
+theorem divSum_eq_table {α : Type} [AddCommMonoid α] (φ : Rat → α) (W : AMat Rat n) (c : Vector Int n) (u : Fin n) :
+    (pnmTable W c)[u.val]? = some ((List.range (numMods c)).map fun m => pnmOf W (inMod (relabel c) (m + 1)) u) ∧
+    divSum φ W c u = (((List.range (numMods c)).map fun m => pnmOf W (inMod (relabel c) (m + 1)) u).map φ).sum := by
+  constructor
+  · unfold pnmTable
+    simp
+  · unfold divSum modSum sumRange
+    simp only [List.map_map, Function.comp_def]
+
 /-- `modularity_und(A, gamma, kci)` -/
 theorem qUnd_inv (A : AMat Rat n) (γ : Rat) (c : Vector Int n) {g : Int → Int} (hg : Injective g) :
     qUnd A γ (c.map g) = qUnd A γ c := by
@@ -897,6 +909,8 @@ example : ∃ (ci : List Nat) (h : ci.length = 3), ls2ci [[2, 0], [1]] 0 = .ok c
     | 1, (j + 2) => simp at hj
     | (i + 2), _ => simp at hi) (by decide) (by decide)
   exact ⟨ci, h, h1, h2⟩
+
+example : (pnmTable (posPart signedW) c2)[1]? = some [1/4, 3/4] := by decide +kernel
 
 end Examples
 
